@@ -124,9 +124,9 @@ func (n *Named) Delete(name string) error {
 		return errors.New("null pipe must not be closed")
 	}
 
-	n.mutex.Unlock()
-
 	delete(n.pipes, name)
+
+	n.mutex.Unlock()
 	return nil
 }
 
